@@ -75,6 +75,8 @@ pub struct GenCfg {
     pub floats: bool,
     /// pairs "~ g = g" / "~ g = g + 1": a write that changes nothing followed by one that does
     pub identity_then_change: bool,
+    /// threads that contribute nothing but a fallback choice
+    pub thread_fallbacks: bool,
 }
 
 impl GenCfg {
@@ -126,6 +128,7 @@ impl GenCfg {
             call_mid_expression_boost: false,
             floats: false,
             identity_then_change: false,
+            thread_fallbacks: false,
         }
     }
     /// everything, including the nondeterministic-looking features (for lockstep oracles)
@@ -1322,6 +1325,14 @@ impl<'a> Builder<'a> {
         let nrun = if self.cfg.thread_boost { 1 + self.rng.below(3) } else { self.rng.below(2) };
         let mut v = self.content_run(externals, nrun);
         let nflow = self.meta.flow_knots.len();
+        if self.cfg.thread_fallbacks && self.rng.chance(1, 3) {
+            // the thread's only choice is a fallback
+            let t = self.text();
+            v.push(Stmt::Choice(Choice { sticky: false, label: None, conds: vec![], start: vec![], choice_only: None, end: vec![], divert: None,
+                body: vec![Stmt::Line(vec![Inline::Text(t)], None), Stmt::Divert(Target::Named("kz".into()))] }));
+            v.push(Stmt::Gather(None, vec![], Some(Target::Done)));
+            return v;
+        }
         for _ in 0..1 + self.rng.below(2) {
             let (start, choice_only, end) = self.choice_text();
             let nbody = self.rng.below(2);
